@@ -90,12 +90,16 @@ def leaf(rng, mode, big=False, implicit=None):
             data = data[:1000]
         tag = t or "u4"
         dec = "T os" if not t else "tvi %s X os" % t
-        if mode == "cer" or rng.random() < 0.4:
+        r2 = rng.random()
+        if mode == "cer" or r2 < 0.3:
             enc = "P %s o %s" % (tag, hx(data))
-        elif rng.random() < 0.5:
+        elif r2 < 0.5:
             enc = "OL %s %s" % (tag, hx(data))
-        else:
+        elif r2 < 0.7 or mode != "der":
             enc = "OS %s der %s" % (tag, hx(os_prim(data)))
+        else:
+            # a value decoded from a segmented BER encoding, re-encoded in DER (flattened to primitive)
+            enc = "OS %s ber %s" % (tag, hx(rand_os_form(rng, data)))
         return enc, dec, ["os:p" + hx(data)], tag
     # restricted strings
     cs, num, text = rng.choice([("utf8", 12, "héllo wörld €😀"), ("num", 18, "0123 456"), ("print", 19, "Abc (1)+,-./:=?"), ("ia5", 22, "a@b.c~\x00")])
